@@ -44,8 +44,11 @@ RECURSIVE SelectSeqIdx(_, _, _)
 SelectSeqIdx(s, keep(_), i) ==
     IF i > Len(s) THEN << >> ELSE (IF keep(i) THEN <<s[i]>> ELSE << >>) \o SelectSeqIdx(s, keep, i + 1)
 Add(x, y) == IF x = N \/ y = N THEN N ELSE x + y
-Val(e, r) == CASE e = "id" -> r[1] [] e = "a" -> r[2] [] e = "b" -> r[3] [] e = "a+b" -> Add(r[2], r[3])
+\* column s is a TEXT column whose values are the images of b under an order-preserving encoding (0 -> 'a', 1 -> 'b', ..):
+\* for the oracle it is b, the renderer writes it as text, and MIN/MAX/COUNT of it exercise the non-numeric aggregate state
+Val(e, r) == CASE e = "id" -> r[1] [] e = "a" -> r[2] [] e = "b" -> r[3] [] e = "s" -> r[3] [] e = "a+b" -> Add(r[2], r[3])
 IsExpr(e) == e = "a+b"
+IsText(e) == e = "s"
 
 (* ------------------------------------------------------------------- input *)
 JoinRows(rs) ==    \* x's row once per matching y (NULL never matches)
@@ -104,6 +107,7 @@ Having(h, f, x, rows) ==
 (*                                over the first column of the table (id)  *)
 (*  "expr_key_shown_as_null"      grouping by an expression forms the right *)
 (*                                groups but shows NULL as their key       *)
+(*  "minmax_of_text_is_null"      MIN / MAX of a TEXT column are NULL       *)
 (*  "having_looked_up_in_select_list"  a HAVING aggregate is not computed  *)
 (*                                but looked up by name among the select-  *)
 (*                                list aggregates (see HavingLookup): not  *)
@@ -112,11 +116,12 @@ Having(h, f, x, rows) ==
 (*                                aggregate answers for it                 *)
 (***************************************************************************)
 DevSeq == << "count_counts_nulls", "expr_arg_is_first_column", "expr_key_shown_as_null", "having_looked_up_in_select_list",
-             "sum_of_nothing_is_zero" >>
+             "minmax_of_text_is_null", "sum_of_nothing_is_zero" >>
 DevNames == SeqToSet(DevSeq)
 AggDev(f, x, rows, devs) ==
     LET xx == IF "expr_arg_is_first_column" \in devs /\ IsExpr(x) THEN "id" ELSE x
-    IN IF f = "COUNT" /\ "count_counts_nulls" \in devs THEN Len(rows)
+    IN IF f \in {"MIN", "MAX"} /\ IsText(x) /\ "minmax_of_text_is_null" \in devs THEN N
+       ELSE IF f = "COUNT" /\ "count_counts_nulls" \in devs THEN Len(rows)
        ELSE IF f = "SUM" /\ "sum_of_nothing_is_zero" \in devs /\ ArgVals(xx, rows) = << >> THEN 0
        ELSE Agg(f, xx, rows)
 \* How the HAVING aggregate is found among the select-list aggregates: by the name <fn>_<column>, else by the bare
@@ -140,6 +145,7 @@ Applicable(q, devs) ==
     /\ ("count_counts_nulls" \in devs => q.f = "COUNT")
     /\ ("sum_of_nothing_is_zero" \in devs => q.f = "SUM" \/ q.h = "sumb>=1")
     /\ ("expr_arg_is_first_column" \in devs => IsExpr(q.x))
+    /\ ("minmax_of_text_is_null" \in devs => IsText(q.x) /\ q.f \in {"MIN", "MAX"})
     /\ ("expr_key_shown_as_null" \in devs => \E i \in 1..Len(q.g) : IsExpr(q.g[i]))
     /\ ("having_looked_up_in_select_list" \in devs => HavingLookup(q) # "exact")
 
@@ -164,7 +170,7 @@ Answer(q) == Groups(q, {})
 (* Database::query does for an aggregate over a join (database.rs,         *)
 (* find_hash_aggregate).  It is written down as the code behaves so that   *)
 (* the check keeps PREDICTING that path instead of going blind on it:      *)
-(*  - the joined row is <<x.id, x.a, x.b, y.id, y.a>>, produced y-major;   *)
+(*  - the joined row is <<x.id, x.a, x.b, x.s, y.id, y.a>>, produced y-major; *)
 (*  - the first Filter under the plan root is applied to the joined rows:  *)
 (*    with a HAVING clause that is the HAVING predicate (an aggregate call *)
 (*    is not TRUE on a row, so every row is dropped and WHERE is ignored), *)
@@ -184,13 +190,13 @@ Answer(q) == Groups(q, {})
 (*    as they are (agg = FALSE below).                                     *)
 (***************************************************************************)
 NoLim == -1
-CombIdx(e) == CASE e = "id" -> 1 [] e = "a" -> 2 [] e = "b" -> 3
-IsCol(e) == e \in {"id", "a", "b"}
+CombIdx(e) == CASE e = "id" -> 1 [] e = "a" -> 2 [] e = "b" -> 3 [] e = "s" -> 4
+IsCol(e) == e \in {"id", "a", "b", "s"}
 JoinCombined(rs) ==
     LET RECURSIVE J(_, _)
         J(j, i) == IF j > Len(W) THEN << >>
                    ELSE IF i > Len(rs) THEN J(j + 1, 1)
-                   ELSE (IF rs[i][2] # N /\ rs[i][2] = W[j][2] THEN << rs[i] \o W[j] >> ELSE << >>) \o J(j, i + 1)
+                   ELSE (IF rs[i][2] # N /\ rs[i][2] = W[j][2] THEN << rs[i] \o <<rs[i][3]>> \o W[j] >> ELSE << >>) \o J(j, i + 1)
     IN J(1, 1)
 HandJoinRows(q, lim, agg) ==
     LET comb == JoinCombined(Tab(q.tab))
@@ -219,12 +225,13 @@ HandJoinRows(q, lim, agg) ==
 (* -------------------------------------------------------------- query space *)
 GroupLists == {<< >>, <<"a">>, <<"b">>, <<"a", "b">>, <<"a+b">>} \cup (IF Rich THEN {<<"b", "a">>, <<"a", "a+b">>, <<"id">>} ELSE {})
 Fns == {"COUNT", "SUM", "AVG", "MIN", "MAX"}
-Args == {"id", "a", "b", "a+b"}
+Args == {"id", "a", "b", "a+b", "s"}
 Havings == {"none", "cnt>1", "sumb>=1"} \cup (IF Rich THEN {"self>=1"} ELSE {})
 Queries ==
     {q \in [src : {"table", "join"}, tab : Tables, w : {"none", "idge2", "idlt0"}, g : GroupLists, wc : BOOLEAN,
             f : Fns \cup {"COUNT(*)"}, x : Args \cup {"*"}, h : Havings] :
         /\ (q.f = "COUNT(*)") = (q.x = "*")
+        /\ (IsText(q.x) => q.f \in {"COUNT", "MIN", "MAX"} /\ q.h \in {"none", "cnt>1"})
         /\ (q.f = "COUNT(*)" => ~q.wc)
         /\ (q.src = "join" => q.tab \in {"t", "u"} /\ q.w \in {"none", "idge2"})
         /\ (q.tab \in {"e", "n"} => q.w = "none" /\ (Rich \/ q.h \in {"none", "cnt>1"}))}
